@@ -79,8 +79,8 @@ ASSUMPTIONS = [
 ]
 
 FLOORS = {
-    'quick': {'states': 6, 'transitions': 4000, 'validated': 2000, 'outcomes': 3, 'set:symbols_executed': 57, 'set:fault_types': 6, 'set:faults': 15},
-    'thorough': {'states': 6, 'transitions': 250000, 'validated': 90000, 'outcomes': 3, 'set:symbols_executed': 57, 'set:fault_types': 6, 'set:faults': 15},
+    'quick': {'states': 6, 'transitions': 4000, 'validated': 2000, 'outcomes': 3, 'set:symbols_executed': 60, 'set:fault_types': 6, 'set:faults': 15},
+    'thorough': {'states': 6, 'transitions': 250000, 'validated': 90000, 'outcomes': 3, 'set:symbols_executed': 60, 'set:fault_types': 6, 'set:faults': 15},
 }
 
 WD = 10  # seconds per library call
@@ -539,6 +539,39 @@ def _prof2(cx):
                 _obs(cx.parse('profile(add-overriding-macro+remove)', lambda: cssutils.parseStyle('x-c12:onlythis;x-c12:other;color:red')))]
     finally:
         cssutils.profile.removeProfile('c12b')
+
+
+# -- tokenizers with macros of their own: the same macro names with other definitions (what a tokenizer answers depends on the
+#    definitions it was given, not on the definitions an earlier tokenizer was given)
+TOK_TEXT = 'a{top:-1.5px;x:+.5e;y:a_b\\41 c}'
+
+
+def _tok(macros):
+    from cssutils.cssproductions import PRODUCTIONS
+    from cssutils.tokenize2 import Tokenizer
+
+    return [list(t) for t in Tokenizer(macros, PRODUCTIONS).tokenize(TOK_TEXT, fullsheet=True)]
+
+
+@sym('Tokenizer(copy of MACROS)')
+def _tok_a(cx):
+    from cssutils.cssproductions import MACROS
+
+    return _tok(dict(MACROS))
+
+
+@sym('Tokenizer(MACROS, num=unsigned)')
+def _tok_b(cx):
+    from cssutils.cssproductions import MACROS
+
+    return _tok(dict(MACROS, num=r'[0-9]*\.[0-9]+|[0-9]+'))
+
+
+@sym('Tokenizer(MACROS, nmchar=no underscore)')
+def _tok_c(cx):
+    from cssutils.cssproductions import MACROS
+
+    return _tok(dict(MACROS, nmchar=r'[0-9a-z-]|{nonascii}|{escape}'))
 
 
 # -- an explicit, persistent setting: the application sets serializer preferences and leaves them set.  The expected results of
